@@ -176,6 +176,46 @@ def rule_helpers(rep: Report, repo: Repo, sections=None, nonhermitian: bool = Tr
                     else:
                         raise AnalysisError(R, f"{inst}: not understood")
         msc = Scope(repo.trees[MOD], None)
+        # a term taken from somewhere else than `operator[index[2:]]` on some path: legitimate only for the zeroth order as a whole
+        from .sem import outcomes as _oc_u
+        outer_env_u = env_at(ev[0], f)
+        zeroth_txt = "operator[(0,) * operator.n_infinite]"
+        reuse_checked = False
+        paths_u = []  # (value, conditions, node)
+        try_stmts = [s_ for s_ in ev[0].body if isinstance(s_, ast.Try)]
+        for o_ in _oc_u(ev[0].body, None, env={}, expand=False):
+            if o_.kind == "return" and o_.value is not None:
+                paths_u.append((o_.value, o_.conds, o_.node))
+            elif o_.kind == "fall" and len(try_stmts) == 1:
+                # the path reaches the `try:` whose body returns the block: its return values are read in this path's environment
+                for r_ in [x for x in ast.walk(try_stmts[0]) if isinstance(x, ast.Return) and x.value is not None and x in try_stmts[0].body]:
+                    paths_u.append((resolved(r_.value, o_.env), o_.conds, r_))
+        for val_u, conds_u, node_u in paths_u:
+            o_ = type("_P", (), {"value": val_u, "conds": conds_u, "node": node_u})()
+            if norm(o_.value) == "zero" or o_.node in fills:
+                continue
+            vt = norm(resolved(o_.value, outer_env_u))
+            if "operator[index[2:]]" in vt:
+                continue
+            if zeroth_txt in vt or any(isinstance(x, ast.Name) and x.id in outer_env_u and zeroth_txt in norm(outer_env_u[x.id]) for x in ast.walk(o_.value)) \
+                    or any(isinstance(x, ast.Name) and any(isinstance(w, ast.NamedExpr) and w.target.id == x.id and norm(w.value) == zeroth_txt
+                                                           for w in ast.walk(f)) for x in ast.walk(o_.value)):
+                conds_t = [(norm(canon(t_)), p_) for t_, p_ in o_.conds]
+                whole = any((t_ in ("any(index[2:])", "sum(index[2:])") and not p_) or (t_ in ("not any(index[2:])", "sum(index[2:]) == 0",
+                            "all((_v0 == 0 for _v0 in index[2:]))", "index[2:] == (0,) * operator.n_infinite") and p_) for t_, p_ in conds_t)
+                last_only = any((t_ in ("index[-1]", "index[2]") and not p_) or (t_ in ("index[-1] == 0", "index[2] == 0", "not index[-1]") and p_) for t_, p_ in conds_t)
+                reuse_checked = True
+                if whole:
+                    rep.ok(R, f"{MOD}::_unpack_blocks.op_eval reuses the unperturbed term only when every order is zero", str(conds_t)[:100], loc(o_.node))
+                elif last_only:
+                    rep.fail(R, f"{MOD}::_unpack_blocks.op_eval takes the blocks of the UNPERTURBED term whenever one order index is zero (`{next(t_ for t_, _p in conds_t if 'index[' in t_)}`)",
+                             "with two or more perturbation parameters the orders (n_1, ..., 0) are perturbation terms of their own: they are "
+                             "replaced by H_0", loc(o_.node))
+                else:
+                    raise AnalysisError(R, f"_unpack_blocks.op_eval reuses the unperturbed term under `{conds_t}`: not understood")
+        if reuse_checked and any("operator[index[2:]]" not in norm(resolved(n.value, env_at(n, ev[0]))) for n in rr):
+            # the per-path check above has decided the paths that do not read the packed series; the text check below looks at the others
+            rr = [n for n in rr if "operator[index[2:]]" in norm(resolved(n.value, env_at(n, ev[0])))]
         texts = [norm(kwcalls(resolved(n.value, env_at(n, ev[0])), msc)) for n in rr]
         WANT = "_convert_if_zero(_convert_if_zero(operator[index[2:]], atol=atol)[index[0]][index[1]], atol=atol)"
         ok = texts == [WANT]
